@@ -49,10 +49,13 @@ theorem module_cache_key_tie :
 
 /-- the steps of the repaired `vm.importModule` in source order, as `C14.importModule` has them:
     cache lookup, then the cyclic-import guard BEFORE the importer is called (a refused import
-    opens no file), the module pushed on `vm.importing` before its code is evaluated, the store
-    into `vm.modules` after it -/
+    opens no file), the module pushed on `vm.importing` before its code is evaluated, after it the
+    module object the importer returned is bound to the globals of the code THIS VM loaded
+    (`St.enter` records the binding `(name, gid)`; `St.rebind` in `importModuleMC`), then the store
+    into `vm.modules` -/
 theorem import_module_steps_tie :
-    importModuleSteps = ["lookup", "cyclic-guard", "importer.Import", "push", "eval", "store"] := by decide
+    importModuleSteps = ["lookup", "cyclic-guard", "importer.Import", "push", "eval",
+      "bind module.UseGlobals(code.Globals)", "store"] := by decide
 
 /-- the guard: a module found in `vm.importing` is refused with an import error (`St.refuse`,
     outcome `.err`) -/
@@ -87,5 +90,26 @@ theorem compile_import_name_tie : compileImportName = "node.Path().Value()" := b
 theorem importer_code_sources_tie :
     localImporterCodeSources = ["i.codeCache[name]", "parseAndCompile(ctx, source, fullPath, i.globalNames)"] ∧
     fsImporterCodeSources = localImporterCodeSources := by decide
+
+/-- **the module object an importer hands out is a NEW one on every successful `Import` call**
+    (`object.NewModule(name, code)` on the cache-hit path and on the compile path, of both
+    importers; `NewModule` returns a fresh composite literal) and the importers cache nothing but
+    compiled code: the model's `St.enter` appends a new object per body run — the hypothesis the
+    session theorems (`module_objects_never_rebound`, `module_views_agree`,
+    `evaluations_share_nothing`, `other_evaluations_untouched`) rest on;
+    `fresh_module_objects_needed` is what happens otherwise -/
+theorem importer_module_sources_tie :
+    localImporterModuleSources = ["object.NewModule(name, code)", "object.NewModule(name, code)"] ∧
+    fsImporterModuleSources = localImporterModuleSources ∧
+    newModuleReturns = ["&Module{...}"] ∧
+    localImporterCaches = ["codeCache map[string]*compiler.Code"] ∧ fsImporterCaches = localImporterCaches := by
+  decide
+
+/-- `Module.UseGlobals` makes the module object read the slice it is given (the attribute view,
+    `St.attrArray`), and a function call runs on the code the CALLING VM has loaded for the
+    function's code (`vm.loadCode(fn.Code())`: the function view, `St.fnArray`) -/
+theorem module_views_tie :
+    useGlobalsStmts = ["if len(globals) != len(m.globals) { panic }", "m.globals = globals"] ∧
+    activateFunctionLoads = ["vm.loadCode(fn.Code())"] := by decide
 
 end Risor.C14
